@@ -146,8 +146,7 @@ impl From<CrDateTime<Utc>> for DateTime<Microsecond> {
 impl From<CrDateTime<Utc>> for DateTime<Nanosecond> {
     #[inline]
     fn from(dt: CrDateTime<Utc>) -> Self {
-        dt.timestamp_nanos_opt()
-            .expect("Failed to convert to nanosecond")
-            .into()
+        // instants outside the i64 nanosecond range (1677-09-21 ..= 2262-04-11) become NaT
+        dt.timestamp_nanos_opt().into()
     }
 }
